@@ -21,7 +21,8 @@ import UgoVerif.Proofs.OptimProgram
   (an optimizer error is the run-time error of a sub-expression of the script),
   `optimize_sound_every_budget` + `budget_prefix` (the budget only selects how many passes run;
   a smaller budget runs a prefix of the passes of a larger one), `cond_literal_taken` /
-  `cond_literal_rewrite` (constant conditions).
+  `cond_literal_rewrite` / `if_literal_rewrite` / `if_literal_taken` (constant conditions), `C01_fragment`
+  (whole scripts of the fragment at every budget).
 
   `C01_full` (whole-program equivalence at every budget, all statements) is still stated over the
   abstract run function; what is not covered by a theorem is listed at `C01_full`.
@@ -223,6 +224,28 @@ theorem cond_literal_rewrite (F : FloatOps) (c c' : Expr) (h : condLit F c = som
     ∀ fuel env σ s r s', evalOutcome F fuel env (.cond p c t e) σ s = (.ok r, s') →
       evalOutcome F fuel env (.cond p' c' t e) σ s = (.ok r, s') :=
   fun fuel env σ s r s' hr => condLit_sound h p p' t e fuel env σ s r s' hr
+
+/-- `if` on a literal condition: the BoolLit the optimizer writes into `IfStmt.Cond` (so that the compiler
+    drops the untaken branch) keeps the meaning of the statement, with or without init statement / else -/
+theorem if_literal_rewrite (F : FloatOps) (c : Expr) (falsy : Bool)
+    (h : Gen.isLiteralFalsy F (litOf c) = .ok (some falsy)) (p bp : Pos) (init : Option Stmt) (body : List Stmt)
+    (els : Option Stmt) (fuel : Nat) (env : Sem.Env) :
+    Sem.execStmt F fuel env (.if_ p init c bp body els) =
+      Sem.execStmt F fuel env (.if_ p init (.bool c.pos (!falsy)) bp body els) :=
+  if_lit_rewrite F h p bp init body els fuel env
+
+/-- `if true { body } else e` is `body` (in its own scope), `if false …` is the else branch / nothing -/
+theorem if_literal_taken (F : FloatOps) (p q bp : Pos) (b : Bool) (body : List Stmt) (els : Option Stmt)
+    (fuel : Nat) (env : Sem.Env) :
+    Sem.execStmt F (fuel+2) env (.if_ p none (.bool q b) bp body els) =
+      (if b then do
+          let (c, _) ← Sem.execBlock F (fuel+1) ([] :: env) body
+          pure (c, env)
+        else
+          match els with
+          | some e => do let (c, _) ← Sem.execStmt F (fuel+1) ([] :: env) e; pure (c, env)
+          | none => pure (.normal, env)) :=
+  if_bool_taken F p q bp b body els fuel env
 
 /-- outcome of running a whole script with the reference semantics -/
 def programOutcome (F : FloatOps) (fuel : Nat) (file : List Stmt) (args : List V) (σ : Sem.SemSt) (s : State) :
